@@ -102,10 +102,13 @@ prop("C12", ["contracts.c01_client", "contracts.c12_blockdown"], ["BdInit", "BdS
      assumed=["SdoClient request_response / read_response / send_request / abort as seen by the stream (env/blockclient.py)",
               "binascii.crc_hqx is a byte-wise fold (uninterpreted step function); the CRC-16 polynomial is CPython's",
               "_retransmit per function is contracted for sub-blocks of 3 and 5 full segments (quick; 1, 2, 4, 5, 7, 12 segments with every acknowledged count in the thorough tier); for ALL sub-block sizes and acknowledged counts it is covered by BlockDownloadLossTheorem's invariant"],
-     not_decided=["end to end (BlockDownloadTheorem, BlockDownloadLossTheorem against the conformant server model env/blockserver.py): "
-                  "undisturbed and single-loss transfers are proved; 'a download that returns normally under any other loss pattern has "
-                  "committed exactly the payload' is only covered per function and by the bounded stand-in against a reference server",
-                  "arbitrary multi-loss patterns; liveness of retransmission; termination of the mutual recursion write/send/_block_ack/_retransmit"])
+     not_decided=["liveness: that a transfer under multiple losses eventually succeeds (it may fail visibly: after a loss during a "
+                  "retransmission the client's CRC is wrong and the server rejects the end frame); termination of the mutual recursion "
+                  "write/send/_block_ack/_retransmit (partial correctness only)",
+                  "all three clauses of the statement are proved against the conformant server model env/blockserver.py: undisturbed "
+                  "(BlockDownloadTheorem), single loss repaired (BlockDownloadLossTheorem), returns normally only after committing exactly "
+                  "the payload under ANY loss pattern (BlockDownloadSafetyTheorem with the modular contract BdRetransmitContract); the "
+                  "reference server of the bounded stand-in is an independent second implementation of the peer"])
 
 prop("C13", ["contracts.c01_client", "contracts.c12_blockdown", "contracts.c13_blockup"],
      ["BuInit", "BuRead", "BuAckBlock", "BuRetransmit", "BuClose", "ReqResp"],
@@ -177,7 +180,8 @@ for _p in ("C02", "C03"):
 PROPS["C13"]["modules"].append("contracts.l13_blockupload")
 PROPS["C13"]["contracts"].append("BlockUploadTheorem")
 PROPS["C12"]["modules"].append("contracts.l12_blockdownload")
-PROPS["C12"]["contracts"] += ["BlockDownloadTheorem", "BlockDownloadLossTheorem"]
+PROPS["C12"]["modules"].append("contracts.l12_blockdownload_safety")
+PROPS["C12"]["contracts"] += ["BlockDownloadTheorem", "BlockDownloadLossTheorem", "BdRetransmitContract", "BlockDownloadSafetyTheorem"]
 for _p in ("C03",):
     PROPS[_p]["modules"].append("contracts.l03_pair")
     PROPS[_p]["contracts"] += ["PairDownloadTheorem", "PairExpedited", "PairUploadTheorem", "PairUploadSmall", "StackRoundTrip", "StackRoundTripSmall"]
